@@ -729,7 +729,9 @@ class AttackGraph():
         for node_id in entry_points:
             node = self.get_node_by_id(int(node_id))
             if node:
-                attacker.entry_points.append(node)
+                # Entry points are a set of nodes, same as the reached steps
+                if node not in attacker.entry_points:
+                    attacker.entry_points.append(node)
             else:
                 msg = ("Could not find node with id %d"
                        "in attacker entrypoints.")
